@@ -187,6 +187,17 @@ def contraction_slack(post: Snapshot, want: np.ndarray, want_names: Sequence[str
     return slack
 
 
+def unit(rho: np.ndarray):
+    """rho / Tr rho (used once a non-unitary, non-renormalising user operator has taken the state out of
+    the unit-trace regime: from then on states and probabilities are compared after normalisation)"""
+    t = complex(np.trace(rho))
+    return rho / t if abs(t) > 1e-300 else rho
+
+
+def unnormalised(s: Snapshot) -> bool:
+    return abs(complex(np.trace(s.rho)) - 1.0) > 1e-9
+
+
 def kraus_ops(kseed: int, dim: int, nops: int, unitary: bool) -> List[np.ndarray]:
     rng = np.random.default_rng(int(kseed) * 17 + dim)
     if unitary or nops == 1:
@@ -419,6 +430,9 @@ class Machine:
         post_c = [max(c, d) for c, d in zip(common, post.dims)]
         got = ref.pad(post.rho, post.dims, post_c)
         want = ref.pad(exp, common, post_c)
+        if unnormalised(pre):
+            got, want = unit(got), unit(want)
+            self.labels.append("unit-trace-regime-left")
         td = ref.trace_distance(got, want)
         tol = TOL_TRUNC if name in ("Displace", "Squeeze") else (TOL_EXPM if name in ("BS",) else TOL_EXACT)
         tol += contraction_slack(post, want, pre.names, post_c)
@@ -630,6 +644,8 @@ class Machine:
         got = self.value_as_state(val, D, w.kind[targets[0]] if len(targets) == 1 else None)
         if got is None:
             raise Tagged(["C02"], "trace-out-value", f"trace_out via {entry} of {targets} returned something of shape {getattr(val, 'shape', type(val))} for total dimension {D}", dict(site, what="shape"))
+        if unnormalised(pre) and abs(np.trace(got)) > 1e-12:
+            got, want = unit(got), unit(want)
         tdv = ref.trace_distance(got, want)
         if tdv > 1e-8:
             raise Tagged(["C02"], "trace-out-value", f"trace_out via {entry} of {targets} (storage {site['storage']}/{site['rep']}, {ntraced} traced out) is {tdv:.3e} away from the true partial trace",
@@ -709,6 +725,8 @@ class Machine:
         want = ref.apply_kraus(pre.rho, pre.dims, [pre.names.index(t) for t in targets], ks)
         a, b, common = align(pre, post, pre.names)
         wantp = ref.pad(want, pre.dims, common)
+        if unnormalised(pre):
+            b, wantp = unit(b), unit(wantp)
         td = ref.trace_distance(b, wantp)
         if td > TOL_EXACT + contraction_slack(post, wantp, pre.names, common):
             trg = float(np.real(np.trace(b)))
@@ -823,7 +841,7 @@ class Machine:
             p = rec["p"]
             if p is not None:
                 lib_prob *= float(p[rec["chosen"]] / np.sum(p))
-        rho = pre.rho
+        rho = unit(pre.rho) if unnormalised(pre) else pre.rho
         dims = list(pre.dims)
         names = list(pre.names)
         born = None
@@ -867,7 +885,10 @@ class Machine:
             order = [exp_names.index(n) for n in post.names]
             exp, ed = ref.permute(exp, exp_dims, order)
             cd = [max(a_, b_) for a_, b_ in zip(ed, post.dims)]
-            td = ref.trace_distance(ref.pad(post.rho, post.dims, cd), ref.pad(exp, ed, cd))
+            got_m = ref.pad(post.rho, post.dims, cd)
+            if unnormalised(pre):
+                got_m = unit(got_m)
+            td = ref.trace_distance(got_m, ref.pad(exp, ed, cd))
             if td > TOL_EXACT + contraction_slack(post, ref.pad(exp, ed, cd), post.names, cd):
                 trg = float(np.real(np.trace(post.rho)))
                 raise Tagged(["C05"], "collapse", f"after measuring {sorted(mset)} via {entry} (storage {site['storages']}/{site['reps']}, outcome {outcomes}) the joint state of {post.names} is {td:.3e} away from the projected state (trace {trg:.6f})",
@@ -1002,7 +1023,8 @@ def _do_povm(self, st):
         raise Tagged(["C09"], "returned-outcome", f"returned outcome {outcome} but the sampler chose {log[0]['chosen']}", dict(site, what="index"))
     # ---- probabilities ----
     tidx = [pre.names.index(t) for t in targets]
-    red = ref.ptrace(pre.rho, pre.dims, tidx)
+    base_rho = unit(pre.rho) if unnormalised(pre) else pre.rho
+    red = ref.ptrace(base_rho, pre.dims, tidx)
     want_p = np.array([float(np.real(np.trace(m @ red @ m.conj().T))) for m in ms])
     got_p = np.asarray(log[0]["p"], float)
     if np.min(got_p) < -1e-9 or not np.all(np.isfinite(got_p)):
@@ -1032,7 +1054,7 @@ def _do_povm(self, st):
             raise Tagged(["C09"], "return-shape", f"outcome dictionary reports {n}, which is neither addressed nor an envelope partner", dict(site, what="keys"))
     # ---- post state ----
     m = ms[outcome]
-    after = ref.apply_op(pre.rho, pre.dims, tidx, m) / want_p[outcome]
+    after = ref.apply_op(base_rho, pre.dims, tidx, m) / want_p[outcome]
     names, dms = list(pre.names), list(pre.dims)
     # reported projective outcomes of partners
     cond_prob = 1.0
@@ -1078,7 +1100,10 @@ def _do_povm(self, st):
     best = None
     for label, cand in cands:
         cdm = [max(a_, b_) for a_, b_ in zip(pd, post.dims)]
-        td = ref.trace_distance(ref.pad(post.rho, post.dims, cdm), ref.pad(cand, pd, cdm)) if post.names else 0.0
+        got_p_ = ref.pad(post.rho, post.dims, cdm) if post.names else None
+        if post.names and unnormalised(pre):
+            got_p_ = unit(got_p_)
+        td = ref.trace_distance(got_p_, ref.pad(cand, pd, cdm)) if post.names else 0.0
         if post.names:
             td = max(0.0, td - contraction_slack(post, ref.pad(cand, pd, cdm), post.names, cdm))
         if best is None or td < best[0]:
